@@ -134,6 +134,30 @@ Example cancel_leaves_no_trace_nonvacuous :
                                         EResp 0 (Some (0,0,2)) SOk; EResp 1 (Some (1,0,2)) SOk; ETick 5000])) = [SFailure].
 Proof. vm_compute. reflexivity. Qed.
 
+(** Hot upgrade of the main process.  The hub the new main process re-creates
+    from [UpgradeData] satisfies every invariant of a reachable hub (all the
+    theorems above hold for it again, with the id counters carried over so that
+    no request id is ever issued twice) ... *)
+Theorem handover_preserves_invariants : forall nw tm es h os,
+    run (init nw tm) es = (h, os) -> Inv [] (handover h) [] /\ next_task (handover h) = next_task h.
+Proof. intros. split; [eapply handover_inv; eapply reach_inv; eauto|reflexivity]. Qed.
+
+(** ... but [UpgradeData] carries no task: a request that is pending when the
+    main process is upgraded never gets a final answer from the new one,
+    whatever the workers answer (open finding upgrade-drops-pending; the old
+    main process closes that client's connection when it stops). *)
+Theorem upgrade_drops_pending : forall nw tm es0 h os0 t es,
+    run (init nw tm) es0 = (h, os0) -> In t (tasks h) ->
+    finals_of (t_rq t) (snd (run (handover h) es)) = [].
+Proof. exact handover_drops_pending_lemma. Qed.
+
+Example upgrade_drops_pending_nonvacuous :
+  let '(h, _) := run (init 2 1000) [EClient 0 VWorker; EResp 0 (Some (0,0,0)) SOk] in
+  length (tasks h) = 1 /\
+  snd (run (handover h) [EResp 1 (Some (1,0,0)) SOk; ETick 5000; EClient 1 VWorker]) =
+  [ONotice 1 1; OSend 0 (0, 1, 0) 1; OSend 1 (1, 1, 0) 1].
+Proof. vm_compute. split; reflexivity. Qed.
+
 (** The halves the code does not give (open findings, kept visible). *)
 
 (** query / status / metrics tasks answer OK although a failure was counted *)
